@@ -298,6 +298,79 @@ fn c09_chains(c: &ChainCase, st: &mut Stats) -> CheckResult {
     Ok(Outcome::Ok)
 }
 
+
+/// ADFs whose compilation makes the node table cross 2^15 / 2^16 / 2^17 entries before the remaining conditions are
+/// compiled: one condition is (x0 & y0) | ... | (x_{p-1} & y_{p-1}) with all x before all y in the variable order.
+#[derive(Clone, Debug, Serialize, Deserialize, Hash)]
+pub struct BigCase {
+    pub p: u8,
+    /// statement that carries the big condition
+    pub at: u8,
+    pub xor_variant: bool,
+    pub others: Vec<F>,
+}
+
+fn big_case() -> BoxedStrategy<BigCase> {
+    (13u8..=16, 0u8..8, any::<bool>(), proptest::collection::vec(gen::formula(8, 4), 10))
+        .prop_map(|(p, at, xor_variant, others)| BigCase { p, at, xor_variant, others })
+        .boxed()
+}
+
+fn c09_big(c: &BigCase, st: &mut Stats) -> CheckResult {
+    let p = c.p as usize;
+    let n = 2 * p + 4;
+    let mut big: Option<F> = None;
+    for i in (0..p).rev() {
+        let pair = if c.xor_variant && i % 5 == 0 { F::xor(F::Atom(i), F::Atom(p + i)) } else { F::and(F::Atom(i), F::Atom(p + i)) };
+        big = Some(match big {
+            None => pair,
+            Some(rest) => F::or(pair, rest),
+        });
+    }
+    // the other conditions: small formulas over statements spread over the whole order
+    let mut acs: Vec<F> = (0..n)
+        .map(|i| {
+            let f = &c.others[i % c.others.len()];
+            f.map_atoms(&|a| (a * 5 + i * 3) % n)
+        })
+        .collect();
+    let at = c.at as usize % n.min(8);
+    acs[at] = big.unwrap();
+    let adf = gen::AdfCase::simple(acs);
+    let text = adf.text();
+    let res = sut::with_parser_opt(&text, sut::Sort::None, false, |pr| -> Result<(u64, usize), String> {
+        let perm: Vec<usize> = (0..n).collect();
+        let mut obligations = 0;
+        let mut nodes = 0;
+        for (nm, b) in [("from_parser", Backend::Native), ("hybrid_step_opt(false)", Backend::HybridNoPre)] {
+            if b != Backend::Native && c.p > 14 {
+                continue;
+            }
+            let a = build_native_like(pr, b);
+            if a.ac.len() != n {
+                return Err(format!("{nm}: {} acceptance handles for {n} statements", a.ac.len()));
+            }
+            for li in 0..n {
+                obligations += validate_statement(&a, li, &adf.acs[li], &perm, &perm, nm)?;
+            }
+            nodes = nodes.max(a.bdd.nodes.len());
+        }
+        Ok((obligations, nodes))
+    });
+    let (obl, nodes) = match res {
+        Err(e) => return Err(format!("well-formed input rejected: {e}")),
+        Ok(Err(e)) => return Err(e),
+        Ok(Ok(x)) => x,
+    };
+    st.count("programs", 1);
+    st.count("obligations_checked", obl);
+    st.label(if nodes > 1 << 16 { "nodes>2^16" } else if nodes > 1 << 15 { "nodes>2^15" } else { "nodes<=2^15" });
+    if nodes > 1 << 15 {
+        st.nontrivial(stable_hash(c), || json!({"statements": n, "nodes": nodes, "big_condition_at": at}));
+    }
+    Ok(Outcome::Ok)
+}
+
 pub fn c09(tier: Tier) -> PropSpec {
     PropSpec {
         id: "C09",
@@ -308,7 +381,7 @@ pub fn c09(tier: Tier) -> PropSpec {
                hybrid_step_opt(false), from_biodivine and (with grounded values substituted, decided statements constant) hybrid_step(). \
                Small ADFs (n<=7) and large ones (10..60 statements, depth <= 9, supports <= 12, a few <= 20; one sixth 61..110 statements). Non-trivial: \
                ADF with >= 10 statements or >= 50 nodes that contains an implication (polarity-asymmetric connective). \
-               programs = ADFs, disagreements_checked = (statement, assignment) pairs compared.",
+               Part big-store: one condition needs 2^13..2^16 pairs-function nodes (node table beyond 2^15 / 2^16 / 2^17 entries) and all other conditions are compiled around it. programs = ADFs, disagreements_checked = (statement, assignment) pairs compared.",
         assumptions: vec![
             "formula.rs evaluator; sut::walk; supports > 14 are sampled, not exhausted",
             "oracle::grounded_local for the pre-grounded import",
@@ -360,6 +433,7 @@ pub fn c09(tier: Tier) -> PropSpec {
             ),
             Part::new("undeclared", tier.pick(4000, 40000), || crate::props::sem::sem_case(2, 6), c09_undeclared),
             Part::with_shrink("chains", tier.pick(800, 8000), 200, chain_case, c09_chains),
+            Part::with_shrink("big-store", tier.pick(48, 480), 40, big_case, c09_big),
         ],
     }
 }
